@@ -17,6 +17,7 @@
 package main
 
 import (
+	"bufio"
 	"bytes"
 	"context"
 	"encoding/binary"
@@ -24,6 +25,7 @@ import (
 	"errors"
 	"fmt"
 	"hash"
+	"io"
 	"math/big"
 	"os"
 	"os/exec"
@@ -460,32 +462,61 @@ func checkRecovered(S uint64, o obs, jc jcase) {
 // probeStrip runs the store call for one span in a child process: a broken length computation can
 // ask for an allocation that kills the process (fatal out-of-memory is not recoverable), and that
 // must become an observation, not a dead harness.
-func probeStrip(S uint64) obs {
-	exe, err := os.Executable()
-	if err != nil {
-		return obs{Class: "crash"}
+var (
+	probeCmd *exec.Cmd
+	probeIn  io.WriteCloser
+	probeOut *bufio.Reader
+)
+
+func probeStop() {
+	if probeCmd != nil {
+		probeIn.Close()
+		probeCmd.Process.Kill()
+		probeCmd.Wait()
+		probeCmd = nil
 	}
-	cmd := exec.Command(exe)
-	cmd.Env = append(os.Environ(), "C08_PROBE="+strconv.FormatUint(S, 10))
-	out, err := cmd.Output()
-	f := strings.Fields(string(out))
+}
+
+func probeStrip(S uint64) obs {
+	if probeCmd == nil {
+		exe, err := os.Executable()
+		if err != nil {
+			return obs{Class: "crash"}
+		}
+		cmd := exec.Command(exe)
+		cmd.Env = append(os.Environ(), "C08_PROBE=1")
+		in, e1 := cmd.StdinPipe()
+		out, e2 := cmd.StdoutPipe()
+		if e1 != nil || e2 != nil || cmd.Start() != nil {
+			return obs{Class: "crash"}
+		}
+		probeCmd, probeIn, probeOut = cmd, in, bufio.NewReader(out)
+	}
+	fmt.Fprintf(probeIn, "%d\n", S)
+	line, err := probeOut.ReadString('\n')
+	f := strings.Fields(line)
 	if err != nil || len(f) != 3 || f[0] != "C08PROBE" {
+		probeStop() // the child died on this span
 		return obs{Class: "crash"}
 	}
 	n, _ := strconv.ParseUint(f[2], 10, 64)
 	return obs{Class: f[1], Len: n}
 }
 
-// child side of probeStrip; content is verified here, the parent gets class and length
-func probeMain(v string) {
-	S, _ := strconv.ParseUint(v, 10, 64)
+// child side of probeStrip: one span per input line; content is verified here, the parent gets
+// class and length
+func probeMain() {
 	initFixed()
 	ref := append(append([]byte{}, pattern(1, 32)...), fixedKey...)
-	o := storeGet(ref, fabricate(S, chunkSize), true)
-	if o.Class == "ok" && (len(o.Data) < 8 || len(o.Data)-8 > len(fixedPlain) || binary.LittleEndian.Uint64(o.Data[:8]) != S || !bytes.Equal(o.Data[8:], fixedPlain[:len(o.Data)-8])) {
-		o.Class = "badcontent"
+	sc := bufio.NewScanner(os.Stdin)
+	for sc.Scan() {
+		S, _ := strconv.ParseUint(strings.TrimSpace(sc.Text()), 10, 64)
+		o := storeGet(ref, fabricate(S, chunkSize), true)
+		if o.Class == "ok" && (len(o.Data) < 8 || len(o.Data)-8 > len(fixedPlain) || binary.LittleEndian.Uint64(o.Data[:8]) != S || !bytes.Equal(o.Data[8:], fixedPlain[:len(o.Data)-8])) {
+			o.Class = "badcontent"
+		}
+		fmt.Printf("C08PROBE %s %d\n", o.Class, o.Len)
 	}
-	fmt.Printf("C08PROBE %s %d\n", o.Class, o.Len)
 }
 
 // set when a child-process probe was killed: in-process store calls on spans of height >= 3 are skipped
@@ -1154,10 +1185,11 @@ func randSpan(r *hx.Rand) uint64 {
 }
 
 func main() {
-	if v := os.Getenv("C08_PROBE"); v != "" {
-		probeMain(v)
+	if os.Getenv("C08_PROBE") != "" {
+		probeMain()
 		return
 	}
+	defer probeStop()
 	run = hx.Start("C08", "Aurora.C08.Corr",
 		"op sequences on encryption.New objects with a toy hash (key/digest/padding/counter classes, lengths at segment and padding boundaries); fabricated encrypted chunks with spans at every level boundary +-1, 2^63, the uint64 wrap region and random magnitudes through the real decrypting store; hashtrie writer runs at branching 2..5 and 4096 over a recording stage that processes Data[:8]; the writer at production parameters over the REAL encryption->bmt->store short chain fed up to 3*4096 leaf references (two intermediate levels) with every stored chunk read back through the decrypting store; real EncryptChunk and encrypted uploads walked through the store. non-trivial = payload longer than one key segment / span above ChunkSize (intermediate chunk) / trie run that stores at least one intermediate chunk; distinct by full input")
 	if boson.ChunkSize != chunkSize || encryption.ReferenceSize != refSize || boson.Branches/2 != encBranches {
